@@ -219,17 +219,41 @@ func RuleDLoaderReject(c *core.Ctx) {
 					if !inside {
 						continue
 					}
-					for v := range originSet(p, iff.Cond, 2) {
-						if prm := paramRoot(v); prm != nil && li.carries(p, prm, "chain", 0) {
-							underChain = true
+					// the condition reads an element of the chain (a membership test),
+					// not merely its length or its being empty
+					isChain := func(x ssa.Value) bool {
+						for v := range originSet(p, x, 2) {
+							if prm := paramRoot(v); prm != nil && li.carries(p, prm, "chain", 0) {
+								return true
+							}
+							if q, ok := v.(*ssa.Parameter); ok && li.carries(p, q, "chain", 0) {
+								return true
+							}
 						}
-						if q, ok := v.(*ssa.Parameter); ok && li.carries(p, q, "chain", 0) {
-							underChain = true
+						return false
+					}
+					for v := range originSet(p, iff.Cond, 2) {
+						switch v := v.(type) {
+						case *ssa.IndexAddr:
+							underChain = underChain || isChain(v.X)
+						case *ssa.Index:
+							underChain = underChain || isChain(v.X)
+						case *ssa.Lookup:
+							underChain = underChain || isChain(v.X)
+						case *ssa.Range:
+							underChain = underChain || isChain(v.X)
+						case *ssa.Call:
+							if callee := v.Call.StaticCallee(); callee != nil && len(v.Call.Args) >= 1 {
+								name := core.BaseName(callee)
+								if name == "Contains" || name == "Index" || name == "ContainsFunc" || name == "IndexFunc" || name == "Has" {
+									underChain = underChain || isChain(v.Call.Args[0])
+								}
+							}
 						}
 					}
 				}
 				if underChain {
-					c.Ob(rule, key, ret.Pos(), core.FuncName(fn), core.Discharged, "returned under a test of the chain of ancestors")
+					c.Ob(rule, key, ret.Pos(), core.FuncName(fn), core.Discharged, "returned under a membership test on the chain of ancestors")
 				} else {
 					c.Ob(rule, key, ret.Pos(), core.FuncName(fn), core.Violated, "the loader builds and returns an error of its own that is not the include-cycle test: a journal is rejected for a reason that depends on how it is split into files")
 				}
